@@ -30,6 +30,27 @@ func (l *ledGen) reorgReachable(c gCoin, h int) bool {
 
 func (l *ledGen) foreign(c gCoin) bool { return l.owner[c.addr] == "" }
 
+// foreignSpend: a pool transaction and one of its inputs that is not a wallet's coin and is still unspent in b
+func (l *ledGen) foreignSpend(b *gBlock) (*gTx, gCoin, bool) {
+	type pair struct {
+		t *gTx
+		c gCoin
+	}
+	var ps []pair
+	for _, t := range l.pool {
+		for _, c := range t.ins {
+			if _, ok := b.utxo[c.key()]; ok && l.foreign(c) && l.spendableIn(c, b.height) {
+				ps = append(ps, pair{t, c})
+			}
+		}
+	}
+	if len(ps) == 0 {
+		return nil, gCoin{}, false
+	}
+	p := ps[l.r.Intn(len(ps))]
+	return p.t, p.c, true
+}
+
 func (l *ledGen) paysWallet(t *gTx) bool {
 	for _, c := range outCoins(t, 0) {
 		if c.cls != "raw" && l.owner[c.addr] != "" {
@@ -49,6 +70,14 @@ func (l *ledGen) countDoubleSpend(t *gTx, c gCoin, ds *gTx) {
 	}
 	if len(t.ins) > 1 {
 		l.g.Stats["blk-doublespends-pending-multi"]++ // t's other inputs are freed
+	}
+	for _, p := range l.pool {
+		for _, pc := range p.ins {
+			if pc.tx == t.name {
+				l.g.Stats["blk-doublespends-pending-chain"]++ // t has pending descendants: recursive purge
+				return
+			}
+		}
 	}
 }
 
